@@ -136,7 +136,8 @@ static void     d_can_reset(void)         { printf("drv can_reset\n"); }
 static void     d_can_close(void)         { printf("drv can_close\n"); }
 static int16_t  d_can_read(CO_IF_FRM *f)
 {
-    if (F_canread > 0 && --F_canread == 0) { RxHave = 0; printf("drv can_read_fail\n"); return -1; }
+    /* a failing read: the mailbox content may already be in the caller's buffer when the error is reported */
+    if (F_canread > 0 && --F_canread == 0) { if (RxHave) *f = RxFrm; RxHave = 0; printf("drv can_read_fail\n"); return -1; }
     if (!RxHave) return 0;
     *f = RxFrm; RxHave = 0;
     return (int16_t)sizeof(CO_IF_FRM);
@@ -226,8 +227,16 @@ void CORpdoWriteData(CO_IF_FRM *f, uint8_t pos, uint8_t size, CO_OBJ *obj) { (vo
 void COTpdoReadData(CO_IF_FRM *f, uint8_t pos, uint8_t size, CO_OBJ *obj)  { (void)f; printf("cb tpdord %u %u %x\n", pos, size, obj->Key); }
 
 static void app_tmr(void *arg)  { printf("cb apptmr %d %u\n", (int)((int *)arg - AppTag), Tick); }
+static uint32_t CbTmrStart; static int CbTmrTag = -1;     /* csdocbtimer: the completion callback starts an application timer */
 static void csdo_cb(CO_CSDO *c, uint16_t idx, uint8_t sub, uint32_t code)
-{ printf("cb csdo %d %x %u %x %u\n", (int)(c - Node->CSdo), idx, sub, code, Tick); }
+{
+    printf("cb csdo %d %x %u %x %u\n", (int)(c - Node->CSdo), idx, sub, code, Tick);
+    if (CbTmrTag >= 0) {
+        AppTag[CbTmrTag] = CbTmrTag;
+        printf("cb csdotimer %d\n", COTmrCreate(&Node->Tmr, CbTmrStart, 0, app_tmr, &AppTag[CbTmrTag]));
+        CbTmrTag = -1;
+    }
+}
 
 /* ------------------------------------------------------------- user type */
 static uint32_t usr_size(CO_OBJ *o, CO_NODE *n, uint32_t w) { (void)n; (void)w; return ((USRO *)o->Data)->size; }
@@ -656,6 +665,7 @@ int main(void)
                    CO_ERR e = COCSdoRequestDownload(cs, CO_DEV(X(2), X(3)), b, (uint32_t)sz, csdo_cb, U(5));
                    if (e == CO_ERR_NONE) { CsBuf[n] = b; CsLen[n] = (uint32_t)sz; }
                    printf("ret %d\n", (int)e); }
+        } else if (!strcmp(c, "csdocbtimer")) { CbTmrStart = U(1); CbTmrTag = (int)U(2) & 255;     /* csdocbtimer start tag */
         } else if (!strcmp(c, "csdobuf")) { int n = (int)U(1); printf("ret "); hex(CsBuf[n], CsLen[n]); printf("\n");
         } else if (!strcmp(c, "fault")) {   /* fault what k [short] */
             const char *w = ARG(1); int k = (int)U(2);
